@@ -70,6 +70,11 @@ def predicates(H, v):
     if H.case["config"]["executor"] == "reusable" and any(
             o["op"][0] == "callback" and o["op"][2] == "submit" for o in H.ops):
         preds.add("callback_submits_on_reusable_executor")
+    if cfg["executor"] == "reusable":
+        cap = 2 * cfg.get("cpu_count", 2) + 1
+        mws = [cfg["max_workers"]] + [op[1]["max_workers"] for ops in H.case["program"] for op in ops if op[0] == "get"]
+        if max(mws) > cap:
+            preds.add("max_workers_exceeds_reusable_queue_capacity")
     if H.verdict == "livelock":
         det = " ".join(H.verdict_detail or [])
         if "_resize" in det:
@@ -150,6 +155,14 @@ def adjust_case(case):
                 new.append(["wait_all"])
                 n += 1
             ops[:] = new
+    if "config:reusable_queue_capacity_ge_max_workers" in ex and cfg["executor"] == "reusable" and case.get("_final_max_workers"):
+        mws = [cfg["max_workers"]] + [op[1]["max_workers"] for ops in case["program"] for op in ops if op[0] == "get"]
+        need = (max(mws) - 1 + 1) // 2      # smallest cpu_count with 2*cpu_count+1 >= max_workers
+        if cfg.get("cpu_count", 2) < need:
+            case = copy.deepcopy(case)
+            case["config"]["cpu_count"] = need
+            cfg = case["config"]
+            n += 1
     if "program:no_callback_submit_on_reusable" in ex and cfg["executor"] == "reusable":
         if any(op[0] == "callback" and op[2] == "submit" for ops in case["program"] for op in ops):
             case = copy.deepcopy(case)
